@@ -8,6 +8,11 @@ def main():
     if len(a) < 2:
         print("usage: vcheck <ID> <quick|thorough|baseline> [--replay path]")
         return 2
+    if a[0] == "selftest":
+        from vf import env
+        env.setup_path()
+        from vf.checks import selftest
+        return selftest.main()
     replay = None
     if "--replay" in a:
         replay = a[a.index("--replay") + 1]
